@@ -10,6 +10,9 @@
       F8  [q_rewrite_shared]       first activation rewrites the shared Context's rule endpoints, sets [checked]
       F110 [q_rebuild_on_hit]       no early return after a cache hit: the overlay is rebuilt on top of the
                                    previous one, so units defined inside an overlay come and go
+      F5  [q_outermost_defaults]   a context enabled without kwargs inherits the parameters of the context
+                                   owning the first rule of the OLDEST active context with rules (ChainMap
+                                   iteration order) instead of those of the innermost enclosing context
     [faithful] = pint as it is, [repaired] = all deviations off. *)
 From Coq Require Import Ascii.
 From stdpp Require Import gmap strings list.
@@ -19,9 +22,10 @@ Record quirks := QK {
   q_partial_activation : bool;
   q_base_cache_ctx_blind : bool;
   q_rewrite_shared : bool;
-  q_rebuild_on_hit : bool }.
-Definition faithful : quirks := QK true true true true.
-Definition repaired : quirks := QK false false false false.
+  q_rebuild_on_hit : bool;
+  q_outermost_defaults : bool }.
+Definition faithful : quirks := QK true true true true true.
+Definition repaired : quirks := QK false false false false false.
 
 (** * Static data *)
 (** a unit definition, abstractly: multiplicative scale and reference container.  The reference
@@ -283,17 +287,20 @@ Fixpoint walk (chain : list centry) (path : list uc) (v : Qc * uc) : res (Qc * u
   | _ => inr v
   end.
 
-(** [ContextChain.defaults]: defaults of the newest context owning the first edge (ChainMap
-    iteration order) of the oldest context that has rules *)
-Definition chain_defaults (chain : list centry) : params :=
-  match List.find (λ e, match ce_rules e with [] => false | _ => true end) (rev chain) with
-  | None => ∅
-  | Some e0 =>
-      match ce_rules e0 with
-      | [] => ∅
-      | r0 :: _ => match find_rule chain (rule_key r0) with Some (_, ps) => ps | None => ∅ end
-      end
-  end.
+(** [ContextChain.defaults].  Repaired (F5): the defaults of the innermost (newest) active
+    context.  Before: [for ctx in self.values(): return ctx.defaults] — the defaults of the newest
+    context owning the first edge (ChainMap iteration order) of the oldest context that has rules. *)
+Definition chain_defaults (qk : quirks) (chain : list centry) : params :=
+  if q_outermost_defaults qk then
+    match List.find (λ e, match ce_rules e with [] => false | _ => true end) (rev chain) with
+    | None => ∅
+    | Some e0 =>
+        match ce_rules e0 with
+        | [] => ∅
+        | r0 :: _ => match find_rule chain (rule_key r0) with Some (_, ps) => ps | None => ∅ end
+        end
+    end
+  else match chain with e :: _ => ce_defaults e | [] => ∅ end.
 
 (** * Probes *)
 Inductive probe :=
@@ -492,7 +499,7 @@ Definition rollback (qk : quirks) (cfg : regcfg) (s : rstate) (k : nat) : rstate
 
 Definition do_enable (qk : quirks) (cfg : regcfg) (os : objs) (s : rstate)
     (cs : list string) (kw : params) : objs * rstate * option err :=
-  let inh := chain_defaults (rs_active s) in
+  let inh := chain_defaults qk (rs_active s) in
   let kw' := if bool_decide (inh = ∅) then kw else kw ∪ inh in
   match resolve os cs with
   | None => (os, s, Some EKey)
